@@ -6,6 +6,7 @@ pub mod c06;
 pub mod c09;
 pub mod c10;
 pub mod c11;
+pub mod c12;
 pub mod c15;
 pub mod c16;
 pub mod c18;
@@ -22,6 +23,7 @@ pub fn by_id(id: &str) -> Option<Box<dyn Property>> {
         "C09" => Box::new(c09::C09),
         "C10" => Box::new(c10::C10),
         "C11" => Box::new(c11::C11),
+        "C12" => Box::new(c12::C12),
         "C15" => Box::new(c15::C15),
         "C16" => Box::new(c16::C16),
         "C18" => Box::new(c18::C18),
@@ -73,6 +75,19 @@ pub fn subcommand(args: &[String]) -> Option<i32> {
                     println!("after dedup: ok, {} bytes, hash {:016x}", s.len(), crate::tape::hash_str(&s));
                 }
                 Err(e) => println!("after dedup: {e}"),
+            }
+            Some(0)
+        }
+        "show-tape" => {
+            // show-tape <hex> [plain]: print the program a tape decodes to
+            let bytes = crate::tape::unhex(&args[1]).unwrap_or_default();
+            let mut t = crate::tape::Tape::new(&bytes);
+            let mut opts = if args.get(2).map(|s| s == "plain").unwrap_or(false) { crate::gen::GenOpts::plain() } else { crate::gen::GenOpts::full() };
+            if args.get(2).map(|s| s == "nochar").unwrap_or(false) {
+                opts.chars = false;
+            }
+            if let Some(c) = crate::case::make_case(&mut t, &opts) {
+                println!("{}\ntypes: {}", c.gen.prog.to_text(), c.low.registry.types.len());
             }
             Some(0)
         }
